@@ -128,6 +128,10 @@ Definition ref_step (o : op) (r : rnet) : rnet * list delivery :=
         ({| r_map := if ref_registered o r then r_sub tx (HNode o (KSdoExtra k)) (r_map r) else r_map r;
             r_nodes := r_nodes r; r_scan := r_scan r;
             r_chans := fun x => if nobj_eqb x o then r_chans r o ++ [tx] else r_chans r x |}, [])
+  | OReassoc o =>      (* attaching an attached node again: whatever of its callbacks is missing is (re)subscribed *)
+      if ref_registered o r then (with_map r (r_sub_all (ref_handlers (r_chans r o) o) (r_map r)), []) else (r, [])
+  | OConnect => (r, [])          (* the bus connection has no bearing on who is subscribed *)
+  | ODisconnect => (r, [])
   end.
 
 Fixpoint ref_run (ops : list op) (r : rnet) : rnet * list (list delivery) :=
